@@ -363,6 +363,21 @@ class SignOracle:
             return flip * s
         raise NeedSign(k, prim, node)
 
+    def band(self, q, t, node=None):
+        """is the quantity q below the small positive literal t?  One two-way question per (quantity, literal); answers for
+        other literals of the same quantity carry over (inside a narrower band is inside a wider one)"""
+        qk = q.key()
+        pre = "band:%s:" % qk
+        for k, v in self.assume.items():
+            if k.startswith(pre):
+                t2 = Fraction(k[len(pre):])
+                if (v == 1 and t2 <= t) or (v == -1 and t2 >= t):
+                    self.used[k] = v
+                    return v == 1
+        need = NeedSign("%s%s" % (pre, Fraction(t)), q, node)
+        need.outcomes = (1, -1)
+        raise need
+
     def derive(self, prim):
         if len(prim.num) != 1 or len(prim.den) != 1:
             return None
@@ -443,7 +458,7 @@ def enumerate_signs(run, max_paths=729, fixed=None):
         try:
             r = run(o)
         except NeedSign as need:
-            for sg in (1, 0, -1):
+            for sg in getattr(need, "outcomes", (1, 0, -1)):
                 stack.append(dict(assume, **{need.key: sg}))
             continue
         out.append((dict(assume), r))
@@ -495,33 +510,55 @@ class Evaluator:
         fn = self.mod.func(name)
         return self._call_fn(fn, list(args), dict(kwargs or {}))
 
+    def bind_signature(self, fn, args, kwargs, env, default_env=None, what="function"):
+        """Python's binding of positional / keyword / *args / keyword-only / **kwargs parameters into env"""
+        a = fn.args
+        name = getattr(fn, "name", "<lambda>")
+        params = [x.arg for x in list(getattr(a, "posonlyargs", [])) + list(a.args)]
+        kwargs = dict(kwargs)
+        if len(args) > len(params) and not a.vararg:
+            raise AnalysisError("E3: too many arguments for %s %s" % (what, name))
+        nd = len(a.defaults)
+
+        def default(expr):
+            return self.eval_default(expr) if default_env is None else self.eval(expr, default_env)
+        for i, p in enumerate(params):
+            if i < len(args):
+                if p in kwargs:
+                    raise AnalysisError("E3: argument %s of %s given twice" % (p, name))
+                env[p] = args[i]
+            elif p in kwargs:
+                env[p] = kwargs.pop(p)
+            else:
+                j = i - (len(params) - nd)
+                if j < 0:
+                    raise AnalysisError("E3: missing argument %s of %s" % (p, name))
+                env[p] = default(a.defaults[j])
+        if a.vararg:
+            env[a.vararg.arg] = tuple(args[len(params):])
+        for k, d in zip(a.kwonlyargs, a.kw_defaults):
+            if k.arg in kwargs:
+                env[k.arg] = kwargs.pop(k.arg)
+            elif d is not None:
+                env[k.arg] = default(d)
+            else:
+                raise AnalysisError("E3: missing keyword argument %s of %s" % (k.arg, name))
+        if a.kwarg:
+            env[a.kwarg.arg] = kwargs
+        elif kwargs:
+            raise AnalysisError("E3: unknown keyword %s for %s" % (sorted(kwargs)[0], name))
+
     def _call_fn(self, fn, args, kwargs):
         if self.depth >= self.max_depth:
             raise AnalysisError("E3: inlining depth exceeded at %s" % fn.name)
         params = [a.arg for a in fn.args.args]
-        if fn.args.vararg or fn.args.kwarg or fn.args.kwonlyargs:
-            raise AnalysisError("E3: unsupported signature of %s" % fn.name)
         for dec in fn.decorator_list:
             txt = unparse(dec)
             # memoising decorators return the function's own value (sharing of that value is the alias rule's business)
             if not any(k in txt for k in ("lru_cache", "functools.cache", "staticmethod")):
                 raise AnalysisError("E3: %s is wrapped by the decorator `%s`" % (fn.name, txt[:60]))
         env = {}
-        defaults = fn.args.defaults
-        nd = len(defaults)
-        for i, p in enumerate(params):
-            if i < len(args):
-                env[p] = args[i]
-            elif p in kwargs:
-                env[p] = kwargs[p]
-            else:
-                j = i - (len(params) - nd)
-                if j < 0:
-                    raise AnalysisError("E3: missing argument %s of %s" % (p, fn.name))
-                env[p] = self.eval_default(defaults[j])
-        for k in kwargs:
-            if k not in params:
-                raise AnalysisError("E3: unknown keyword %s for %s" % (k, fn.name))
+        self.bind_signature(fn, list(args), kwargs, env)
         self.depth += 1
         prev = getattr(self, "current_fn", None)
         self.current_fn = fn.name
@@ -601,6 +638,10 @@ class Evaluator:
                 self.eval(v, env)      # evaluated for its effects on the call log
                 return
             raise AnalysisError("E3: unsupported expression statement line %d" % st.lineno)
+        if isinstance(st, ast.AnnAssign):
+            if st.value is not None:
+                self.assign(st.target, self.eval(st.value, env), env)
+            return
         if isinstance(st, ast.Assign):
             val = self.eval(st.value, env)
             for t in st.targets:
@@ -1061,11 +1102,62 @@ class Evaluator:
         v = cache[name]
         return v.copy() if isinstance(v, Arr) else v
 
+    def _display(self, elts, env):
+        out = []
+        for e in elts:
+            if isinstance(e, ast.Starred):
+                out.extend(self.as_sequence(self.eval(e.value, env), e))
+            else:
+                out.append(self.eval(e, env))
+        return out
+
     def e_List(self, node, env):
-        return [self.eval(e, env) for e in node.elts]
+        return self._display(node.elts, env)
 
     def e_Tuple(self, node, env):
-        return tuple(self.eval(e, env) for e in node.elts)
+        return tuple(self._display(node.elts, env))
+
+    def e_Set(self, node, env):
+        # a set display: kept as a list without repetitions (membership and iteration are all the analysed code does with it)
+        out, seen = [], set()
+        for v in self._display(node.elts, env):
+            k = vkey(v)
+            if k not in seen:
+                seen.add(k)
+                out.append(v)
+        return out
+
+    def e_SetComp(self, node, env):
+        out, seen = [], set()
+        for e in self._comp_envs(node.generators, env):
+            v = self.eval(node.elt, e)
+            k = vkey(v)
+            if k not in seen:
+                seen.add(k)
+                out.append(v)
+        return out
+
+    def e_NamedExpr(self, node, env):
+        v = self.eval(node.value, env)
+        self.assign(node.target, v, env)
+        return v
+
+    def e_JoinedStr(self, node, env):
+        parts = []
+        for v in node.values:
+            if isinstance(v, ast.Constant) and isinstance(v.value, str):
+                parts.append(v.value)
+                continue
+            if isinstance(v, ast.FormattedValue) and v.format_spec is None and v.conversion in (-1, 115):
+                x = self.eval(v.value, env)
+                if isinstance(x, str):
+                    parts.append(x)
+                    continue
+                if isinstance(x, IRat):
+                    parts.append(str(int(x.const_value())))
+                    continue
+            raise AnalysisError("E3: formatted string whose text is not constant (line %d)" % node.lineno)
+        return "".join(parts)
 
     def e_UnaryOp(self, node, env):
         v = self.eval(node.operand, env)
@@ -1336,22 +1428,8 @@ class Evaluator:
 
     def call_closure(self, clo, args, kwargs, node):
         _k, fn, cenv = clo
-        a = fn.args
-        if a.vararg or a.kwarg or a.kwonlyargs or a.posonlyargs:
-            raise AnalysisError("E3: unsupported signature of a local function (line %d)" % fn.lineno)
-        params = [x.arg for x in a.args]
         env = dict(cenv)
-        nd = len(a.defaults)
-        for i, p in enumerate(params):
-            if i < len(args):
-                env[p] = args[i]
-            elif p in kwargs:
-                env[p] = kwargs[p]
-            else:
-                j = i - (len(params) - nd)
-                if j < 0:
-                    raise AnalysisError("E3: missing argument %s of a local function (line %d)" % (p, node.lineno))
-                env[p] = self.eval(a.defaults[j], cenv)
+        self.bind_signature(fn, list(args), kwargs, env, default_env=cenv, what="local function")
         if isinstance(fn, ast.Lambda):
             return self.eval(fn.body, env)
         if self.depth >= self.max_depth:
@@ -1495,7 +1573,7 @@ class Evaluator:
 
     def e_Call(self, node, env):
         f = self.eval(node.func, env)
-        args = [self.eval(a, env) for a in node.args]
+        args = self._display(node.args, env)
         kwargs = {}
         for k in node.keywords:
             v_ = self.eval(k.value, env)
@@ -1760,9 +1838,25 @@ class Evaluator:
                 f = min if name == "min" else max
                 return Rat.const(f(v.const_value() for v in consts))
             if len(syms) == 1:
-                # min(c, x) / max(c, x) with a constant bound: a clip; identity on the domain where the bound is inactive
-                self.trace.append(("clip-assumed-inactive", name, syms[0].key()))
-                return syms[0]
+                x_ = syms[0]
+                f_ = min if name == "min" else max
+                c_ = Rat.const(f_(v.const_value() for v in consts))
+                cv_ = c_.const_value()
+                if (name == "min" and cv_ == 1) or (name == "max" and cv_ == -1):
+                    # min(1, x) / max(-1, x): the guard of an arccos / arcsin argument against round-off; identity on the
+                    # mathematical range of a cosine
+                    self.trace.append(("clip-assumed-inactive", name, x_.key()))
+                    return x_
+                # any other constant bound is a genuine case distinction: a tolerance band (small positive bound) or a sign case
+                if self.threshold_policy is not None and 0 < cv_ <= self.threshold_max:
+                    below = self.threshold_policy(x_, cv_, node)
+                    if below is not None:
+                        return (c_ if below else x_) if name == "max" else (x_ if below else c_)
+                if self.sign_policy is not None:
+                    sg = self.sign_policy(x_ - c_, node)
+                    if sg is not None:
+                        return (x_ if sg >= 0 else c_) if name == "max" else (x_ if sg <= 0 else c_)
+                return func_atom(name, x_, c_)
             raise AnalysisError("E3: %s of several non-constants (line %d)" % (name, node.lineno))
         if name == "sum" and 1 <= len(args) <= 2:
             v = args[0]
@@ -2233,6 +2327,25 @@ class Evaluator:
         return r
 
     def _np_call(self, name, args, kwargs, node):
+        if name in ("round", "around", "round_") and (len(args) == 2 or "decimals" in kwargs) and set(kwargs) <= {"decimals"}:
+            nd = const_int(args[1] if len(args) == 2 else kwargs["decimals"])
+            if nd is None:
+                raise AnalysisError("E3: round() to a non-constant number of decimals (line %d)" % node.lineno)
+            if nd == 0:
+                return self._np_call("round", [args[0]], {}, node)
+
+            def rnd(x_):
+                x_ = scalar(x_)
+                if x_.is_const():
+                    return self.builtin("round", [x_, Rat.const(nd)], {}, node)
+                return func_atom("round", x_, Rat.const(nd))        # another value than x: it has lost what lies below 10^-nd
+            v = args[0]
+            A = v if isinstance(v, Arr) else (materialise(v) if isinstance(v, (list, tuple, Opaque)) else None)
+            if A is not None and A.shape != ():
+                def recr(d):
+                    return [recr(x) for x in d] if isinstance(d, list) else rnd(d)
+                return Arr(recr(A.data))
+            return rnd(v)
         if name in ELEMENTWISE and len(args) == 1 and not kwargs:
             v = args[0]
             A = v if isinstance(v, Arr) else (materialise(v) if isinstance(v, (list, tuple, Opaque)) else None)
@@ -2280,7 +2393,10 @@ class Evaluator:
                 return func_atom(canon, *vals)
         if name == "arctan2" and len(args) == 2:
             return func_atom("arctan2", scalar(args[0]), scalar(args[1]))
-        if name in ("array", "asarray", "ascontiguousarray", "asfarray") and 1 <= len(args) <= 2:
+        if name in ("array", "asarray", "ascontiguousarray", "asfarray", "asanyarray", "float64", "float_") and 1 <= len(args) <= 2 \
+                and isinstance(args[0], Rat):
+            return args[0]            # a 0-d array of one number: the number
+        if name in ("array", "asarray", "ascontiguousarray", "asfarray", "asanyarray") and 1 <= len(args) <= 2:
             v = args[0]
             has_dtype = len(args) == 2 or "dtype" in kwargs or name == "asfarray"
             if isinstance(v, Arr):
@@ -2528,8 +2644,14 @@ class Evaluator:
         if name in ("empty_like", "zeros_like", "ones_like") and len(args) == 1:
             A = args[0] if isinstance(args[0], Arr) else materialise(args[0])
             if A is not None:
-                return self._np_call({"empty_like": "empty", "zeros_like": "zeros", "ones_like": "ones"}[name],
-                                     [tuple(Rat.const(d_) for d_ in A.shape)], {}, node)
+                r_ = self._np_call({"empty_like": "empty", "zeros_like": "zeros", "ones_like": "ones"}[name],
+                                   [tuple(Rat.const(d_) for d_ in A.shape)], {}, node)
+                if isinstance(r_, Arr) and "dtype" not in kwargs:
+                    # the new array has the dtype of its model: integer input makes it an integer array
+                    src_ = args[0]
+                    r_.inherits_dtype = bool(getattr(src_, "inherits_dtype", False)) or isinstance(src_, Opaque)
+                    r_.int_dtype = bool(getattr(src_, "int_dtype", False))
+                return r_
         if name == "reshape" and len(args) >= 2:
             A = args[0] if isinstance(args[0], Arr) else materialise(args[0])
             shp = args[1] if len(args) == 2 and isinstance(args[1], (list, tuple)) else args[1:]
@@ -2571,17 +2693,35 @@ class Evaluator:
                     return Rat.atom("uninitialised#%d" % cnt[0])
                 return Arr(builde(dims))
         if name == "clip" and len(args) == 3 and not kwargs and not isinstance(args[0], Opaque):
-            lo, hi = scalar(args[1]), scalar(args[2])
+            def bound_(v_):
+                if isinstance(v_, (Arr, list, tuple, Opaque)):
+                    m_ = v_ if isinstance(v_, Arr) else materialise(v_)
+                    if m_ is None:
+                        raise AnalysisError("E3: clip() with a bound of unknown shape (line %d)" % node.lineno)
+                    return m_.data
+                return scalar(v_)
+            lo, hi = bound_(args[1]), bound_(args[2])
             A = args[0] if isinstance(args[0], Arr) else (materialise(args[0]) if isinstance(args[0], (list, tuple)) else None)
 
-            def cl(x):
-                return func_atom("clip", scalar(x), lo, hi)
+            def cl(x, l_, h_):
+                return func_atom("clip", scalar(x), scalar(l_), scalar(h_))
+
+            def recc(d, l_, h_):
+                # bounds broadcast against the trailing axes of the array
+                if isinstance(d, list):
+                    for b_ in (l_, h_):
+                        if isinstance(b_, list) and len(b_) != len(d) and not (d and isinstance(d[0], list)):
+                            raise AnalysisError("E3: clip() bounds of another shape (line %d)" % node.lineno)
+                    inner = bool(d) and isinstance(d[0], list)
+                    return [recc(x, (l_ if inner or not isinstance(l_, list) else l_[i_]), (h_ if inner or not isinstance(h_, list) else h_[i_]))
+                            for i_, x in enumerate(d)]
+                if isinstance(l_, list) or isinstance(h_, list):
+                    raise AnalysisError("E3: clip() of a number with array bounds (line %d)" % node.lineno)
+                return cl(d, l_, h_)
             if A is not None and A.shape != ():
-                def recc(d):
-                    return [recc(x) for x in d] if isinstance(d, list) else cl(d)
-                return Arr(recc(A.data))
+                return Arr(recc(A.data, lo, hi))
             if isinstance(args[0], (Rat, int, float)):
-                return cl(args[0])
+                return recc(args[0], lo, hi)
         if name == "sort" and len(args) == 1 and not kwargs:
             A = args[0] if isinstance(args[0], Arr) else (materialise(args[0]) if isinstance(args[0], (list, tuple)) else None)
             if A is not None and len(A.shape) == 1 and all(scalar(x).is_const() for x in A.data):
@@ -2616,6 +2756,78 @@ class Evaluator:
                             + m[0][2] * (m[1][0] * m[2][1] - m[1][1] * m[2][0]))
                 return det_(A.data) if len(A.shape) == 2 else Arr([det_(m) for m in A.data])
             return Rat.atom("det(%s)" % vkey(args[0]))
+        if name == "allclose" and len(args) >= 2 and set(kwargs) <= {"rtol", "atol"}:
+            # all(|a - b| <= atol + rtol*|b|): a tolerance guard.  Folded when it folds; otherwise a rule has to say which side of
+            # the guard it analyses (close_policy), or the sign oracle forks on it; never answered silently.
+            def tol_(i_, nm_, dflt_):
+                v_ = args[i_] if len(args) > i_ else kwargs.get(nm_, dflt_)
+                v_ = scalar(v_) if not isinstance(v_, float) else as_rat(v_)
+                if not v_.is_const():
+                    raise AnalysisError("E3: allclose with a tolerance that is not constant (line %d)" % node.lineno)
+                return Fraction(v_.const_value())
+            rtol, atol = tol_(2, "rtol", 1e-5), tol_(3, "atol", 1e-8)
+
+            def flat_(v_):
+                if isinstance(v_, Arr):
+                    return v_.shape, [scalar(x_) for x_ in v_.flat()]
+                if isinstance(v_, (list, tuple, Opaque)):
+                    m_ = materialise(v_)
+                    if m_ is None:
+                        return None, None
+                    return m_.shape, [scalar(x_) for x_ in m_.flat()]
+                return (), [scalar(v_)]
+            (sa_, fa_), (sb_, fb_) = flat_(args[0]), flat_(args[1])
+            if fa_ is not None and fb_ is not None:
+                if sa_ != sb_ and sa_ != () and sb_ != ():
+                    raise AnalysisError("E3: allclose of arrays of different shapes (line %d)" % node.lineno)
+                n_ = max(len(fa_), len(fb_))
+                fa_ = fa_ * n_ if len(fa_) == 1 else fa_
+                fb_ = fb_ * n_ if len(fb_) == 1 else fb_
+                ds_ = [x_ - y_ for x_, y_ in zip(fa_, fb_)]
+                if all(d_.is_zero() for d_ in ds_):
+                    return True
+                if all(d_.is_const() for d_ in ds_) and all(y_.is_const() for y_ in fb_):
+                    return all(abs(Fraction(d_.const_value())) <= atol + rtol * abs(Fraction(y_.const_value())) for d_, y_ in zip(ds_, fb_))
+            if fa_ is not None and fb_ is not None:
+                # keyed by the differences up to positive content, so that the same guard on a rescaled input is the same guard
+                key_ = "close(%s)" % ";".join(canon_sign(d_)[1].key() for d_ in ds_ if not d_.is_zero())
+            else:
+                key_ = "close(%s,%s)" % (vkey(args[0]), vkey(args[1]))
+            guard_ = {"key": key_, "rtol": rtol, "atol": atol, "line": node.lineno, "text": unparse(node)[:80],
+                      "pairs": list(zip(fa_, fb_)) if fa_ is not None and fb_ is not None else None}
+            pol_ = getattr(self, "close_policy", None)
+            if pol_ is not None:
+                r_ = pol_(guard_)
+                if r_ is not None:
+                    self.__dict__.setdefault("tolerance_guards", []).append(dict(guard_, answer=bool(r_)))
+                    return bool(r_)
+            if isinstance(self.sign_policy, SignOracle):
+                so_ = self.sign_policy
+                if key_ in so_.assume:
+                    so_.used[key_] = so_.assume[key_]
+                    return so_.assume[key_] == 1
+                raise NeedSign(key_, Rat.atom(key_), node)
+            raise Undecided("E3: the tolerance guard `%s` does not fold: the path it selects is not analysed (line %d)" % (guard_["text"], node.lineno))
+        if name in ("array_equal", "array_equiv") and len(args) == 2 and not kwargs:
+            A_ = args[0] if isinstance(args[0], Arr) else materialise(args[0]) if isinstance(args[0], (list, tuple, Opaque)) else None
+            B_ = args[1] if isinstance(args[1], Arr) else materialise(args[1]) if isinstance(args[1], (list, tuple, Opaque)) else None
+            if A_ is None or B_ is None:
+                raise Undecided("E3: array_equal of arrays that are not explicit (line %d)" % node.lineno)
+            if A_.shape != B_.shape:
+                return False
+            unknown = False
+            for x_, y_ in zip(A_.flat(), B_.flat()):
+                d_ = scalar(x_) - scalar(y_)
+                if d_.is_zero():
+                    continue
+                if d_.is_const():
+                    return False
+                unknown = True
+            if not unknown:
+                return True
+            if getattr(self, "generic_equality", False):
+                return False          # generic symbolic entries do not coincide with the other operand
+            raise Undecided("E3: array_equal of symbolic arrays does not fold (line %d)" % node.lineno)
         if name in ("all", "any") and len(args) == 1 and not kwargs:
             def flatb(v):
                 if isinstance(v, bool):
